@@ -443,7 +443,12 @@ func (idx *PQIndex) Kind() VectorIndexKind {
 }
 
 // Trained returns true if the index has been trained
+//
+// Thread-safety: Acquires read lock (Train sets the flag under the write lock)
 func (idx *PQIndex) Trained() bool {
+	idx.mu.RLock()
+	defer idx.mu.RUnlock()
+
 	return idx.trained
 }
 
